@@ -534,13 +534,14 @@ theorem firstNow_eq_max (c : Cfg) (evs : List EvB) (fin : StB) (hacc : acceptB c
 /-! ### the states of the history -/
 
 theorem good_of_visits (c : Cfg) (hwf : c.wf = true) (hplain : Plain c) (evs : List EvB)
-    (hok : ∀ j ok, EvB.bodyEnd j ok ∈ evs → ok = true) (hnf : ∀ s, EvB.orchFail s ∉ evs) (x : StB) (rest : List EvB)
+    (hok : ∀ j ok, EvB.bodyEnd j ok ∈ evs → ok = true) (hnf : ∀ s, EvB.orchFail s ∉ evs) (hnx : EvB.extCancel ∉ evs) (x : StB) (rest : List EvB)
     (hv : Visits c StB.init evs x rest) : Good c x := by
   obtain ⟨pre, he, hacc⟩ := hv
   exact ⟨⟨pre, hacc⟩, invA_of_reachB c hwf pre x hacc, invB_reach c hwf pre x hacc, invP_reach c hwf pre x hacc,
     exitInv_reach c hwf pre x hacc,
     clean_reach c hwf hplain pre x (fun j ok hm => hok j ok (by rw [he]; exact List.mem_append_left _ hm))
-      (fun s hm => hnf s (by rw [he]; exact List.mem_append_left _ hm)) hacc⟩
+      (fun s hm => hnf s (by rw [he]; exact List.mem_append_left _ hm))
+      (fun hm => hnx (by rw [he]; exact List.mem_append_left _ hm)) hacc⟩
 
 /-- the clock advances in quiet states only -/
 theorem quiet_of_visits (c : Cfg) (evs : List EvB) (fin : StB) (hacc : acceptB c StB.init evs = some fin)
@@ -579,32 +580,32 @@ variable (c : Cfg) (hwf : c.wf = true) (evs : List EvB) (st : StB)
   (hover : st.pcB 0 = .over)
   (hplain : ∀ j, j < c.n → c.window j = 0 ∧ c.timeout j = none ∧ c.forever j = false)
   (hok : ∀ j ok, EvB.bodyEnd j ok ∈ evs → ok = true)
-  (hnf : ∀ s, EvB.orchFail s ∉ evs)
-include hwf h hover hplain hok hnf
+  (hnf : ∀ s, EvB.orchFail s ∉ evs) (hnx : EvB.extCancel ∉ evs)
+include hwf h hover hplain hok hnf hnx
 
 theorem final_good : Good c st :=
-  good_of_visits c hwf hplain evs hok hnf st [] ⟨evs, by simp, h⟩
+  good_of_visits c hwf hplain evs hok hnf hnx st [] ⟨evs, by simp, h⟩
 
 /-- every job did begin and end: the first state of the run in which it has begun (ended) exists — the default `0`
     of `timingOf` is never used -/
 theorem run_all_begin_end (j : Nat) (hj : j < c.n) :
     (∃ t, firstNow c (beganP j) StB.init evs = some t) ∧ (∃ t, firstNow c (endedP j) StB.init evs = some t) := by
-  have hG := final_good c hwf evs st h hover hplain hok hnf
+  have hG := final_good c hwf evs st h hover hplain hok hnf hnx
   have he := all_ended c hwf hplain st hG hover j hj
   exact ⟨firstNow_exists c _ evs _ _ h (ended_began hwf hG j he), firstNow_exists c _ evs _ _ h he⟩
 
 /-- a job ends after it began -/
 theorem run_begin_le_end (j : Nat) (hj : j < c.n) : (timingOf c evs).B j ≤ (timingOf c evs).E j := by
-  obtain ⟨_, te, hte⟩ := run_all_begin_end c hwf evs st h hover hplain hok hnf j hj
+  obtain ⟨_, te, hte⟩ := run_all_begin_end c hwf evs st h hover hplain hok hnf hnx j hj
   obtain ⟨tb, htb, hle⟩ := firstNow_le_of_imp c (beganP j) (endedP j) evs StB.init te
-    (fun x rest hv hq => ended_began hwf (good_of_visits c hwf hplain evs hok hnf x rest hv) j hq) hte
+    (fun x rest hv hq => ended_began hwf (good_of_visits c hwf hplain evs hok hnf hnx x rest hv) j hq) hte
   show (firstNow c (beganP j) StB.init evs).getD 0 ≤ (firstNow c (endedP j) StB.init evs).getD 0
   rw [htb, hte]; exact hle
 
 end main
 
 /-- C10 (d): the instants at which the jobs begin and end in a complete history in which nothing fails (no body
-    raises: `hok`; no orchestration fails: `hnf`), of a
+    raises: `hok`; no orchestration fails: `hnf`; the top-level task is not cancelled from outside: `hnx`), of a
     configuration without window, timeout or forever job, with shutdown handlers that take no time, satisfy the
     start-time equations -/
 theorem run_sat (c : Cfg) (hwf : c.wf = true) (evs : List EvB) (st : StB)
@@ -612,15 +613,15 @@ theorem run_sat (c : Cfg) (hwf : c.wf = true) (evs : List EvB) (st : StB)
     (hover : st.pcB 0 = .over)
     (hplain : ∀ j, j < c.n → c.window j = 0 ∧ c.timeout j = none ∧ c.forever j = false)
     (hok : ∀ j ok, EvB.bodyEnd j ok ∈ evs → ok = true)
-    (hnf : ∀ s, EvB.orchFail s ∉ evs)
+    (hnf : ∀ s, EvB.orchFail s ∉ evs) (hnx : EvB.extCancel ∉ evs)
     (hzero : ∀ a d b sta, evs = a ++ EvB.tick d :: b → acceptB c StB.init a = some sta →
                ∀ k, k < c.n → sta.hph k ≠ .hactive)
     : (timingOf c evs).Sat c (durOf c evs) := by
   have w := CoreA.wf_of hwf
-  have hG := final_good c hwf evs st h hover hplain hok hnf
+  have hG := final_good c hwf evs st h hover hplain hok hnf hnx
   have hend := all_ended c hwf hplain st hG hover
   have hbeg : ∀ j, j < c.n → beganP j st = true := fun j hj => ended_began hwf hG j (hend j hj)
-  have hgood := good_of_visits c hwf hplain evs hok hnf
+  have hgood := good_of_visits c hwf hplain evs hok hnf hnx
   have hquiet := quiet_of_visits c evs st h
   refine ⟨?_, ?_, ?_⟩
   · -- a job begins when its scheduler has begun and the last of its requirements has ended
@@ -633,7 +634,7 @@ theorem run_sat (c : Cfg) (hwf : c.wf = true) (evs : List EvB) (st : StB)
       (fun x d rest hv h0 hF => quiet_began hwf (hgood x _ hv) hplain (hquiet x d rest hv) j hj0 hjn h0 hF)
   · -- the body of an atomic job lasts `dur j`
     intro j hj0 hjn _
-    have := run_begin_le_end c hwf evs st h hover hplain hok hnf j hjn
+    have := run_begin_le_end c hwf evs st h hover hplain hok hnf hnx j hjn
     unfold durOf
     omega
   · -- a scheduler ends when it has begun and the last of its jobs has ended
@@ -675,12 +676,12 @@ theorem ended_at (c : Cfg) (x x' : StB) (e : EvB) (h : stepB c x e = some x') (j
 
 theorem reads_meaning (c : Cfg) (hwf : c.wf = true) (evs : List EvB)
     (hplain : ∀ j, j < c.n → c.window j = 0 ∧ c.timeout j = none ∧ c.forever j = false)
-    (hok : ∀ j ok, EvB.bodyEnd j ok ∈ evs → ok = true) (hnf : ∀ s, EvB.orchFail s ∉ evs)
+    (hok : ∀ j ok, EvB.bodyEnd j ok ∈ evs → ok = true) (hnf : ∀ s, EvB.orchFail s ∉ evs) (hnx : EvB.extCancel ∉ evs)
     (x : StB) (rest : List EvB) (hv : Visits c StB.init evs x rest) :
     (∀ j, (beganP j x = true ↔ x.a.ph j = .running ∨ (x.a.ph j).isDone = true) ∧
           (endedP j x = true ↔ (x.a.ph j).isDone = true)) ∧
     (∀ s, c.isSched s = true → (beganP s x = true ↔ x.pcB s ≠ .notBegun) ∧ (endedP s x = true ↔ x.pcB s = .over)) := by
-  have hG := good_of_visits c hwf hplain evs hok hnf x rest hv
+  have hG := good_of_visits c hwf hplain evs hok hnf hnx x rest hv
   exact ⟨fun j => ⟨beganP_iff hwf hG j, ended_iff_done hG.clean j⟩,
     fun s hs => ⟨beganP_sched hwf hG s hs, endedP_sched hwf hG s hs⟩⟩
 
@@ -688,11 +689,11 @@ theorem reads_meaning (c : Cfg) (hwf : c.wf = true) (evs : List EvB)
     cancelled or with an exception, and every run that has left its main loop did so for reason `success` -/
 theorem nothing_fails (c : Cfg) (hwf : c.wf = true) (evs : List EvB)
     (hplain : ∀ j, j < c.n → c.window j = 0 ∧ c.timeout j = none ∧ c.forever j = false)
-    (hok : ∀ j ok, EvB.bodyEnd j ok ∈ evs → ok = true) (hnf : ∀ s, EvB.orchFail s ∉ evs)
+    (hok : ∀ j ok, EvB.bodyEnd j ok ∈ evs → ok = true) (hnf : ∀ s, EvB.orchFail s ∉ evs) (hnx : EvB.extCancel ∉ evs)
     (x : StB) (rest : List EvB) (hv : Visits c StB.init evs x rest) :
     (∀ k, x.a.creq k = false) ∧ (∀ k, x.a.ph k ≠ .cancelled) ∧ (∀ k ex, x.a.ph k ≠ .done (.exc ex)) ∧
     (∀ s y, (x.pcB s).exitOf = some y → y = .success) :=
-  have hC := (good_of_visits c hwf hplain evs hok hnf x rest hv).clean
+  have hC := (good_of_visits c hwf hplain evs hok hnf hnx x rest hv).clean
   ⟨hC.noCreq, hC.noCan, hC.noExc, hC.okExit⟩
 
 /-! ### decidable forms of the hypotheses on the history (`okCheck`, `nfCheck`, `zeroCheck`: `Model/Flat.lean`) -/
@@ -703,6 +704,11 @@ theorem okCheck_spec (evs : List EvB) (h : okCheck evs = true) : ∀ j ok, EvB.b
 
 theorem nfCheck_spec (evs : List EvB) (h : nfCheck evs = true) : ∀ s, EvB.orchFail s ∉ evs := by
   intro s hm
+  have := List.all_eq_true.1 h _ hm
+  cases this
+
+theorem nfCheck_spec_ext (evs : List EvB) (h : nfCheck evs = true) : EvB.extCancel ∉ evs := by
+  intro hm
   have := List.all_eq_true.1 h _ hm
   cases this
 
@@ -756,7 +762,7 @@ example : exCfg.wf = true ∧
     (acceptB exCfg StB.init exEvs).map (fun st => decide (st.pcB 0 = .over)) = some true := by
   decide
 
-/-- it satisfies `hplain`, `hok`, `hnf` and `hzero` -/
+/-- it satisfies `hplain`, `hok`, `hnf`, `hnx` and `hzero` -/
 example : (∀ j, j < exCfg.n → exCfg.window j = 0 ∧ exCfg.timeout j = none ∧ exCfg.forever j = false) ∧
     okCheck exEvs = true ∧ nfCheck exEvs = true ∧ zeroCheck exCfg StB.init exEvs = true := by
   decide
@@ -775,7 +781,7 @@ example : (timingOf exCfg exEvs).Sat exCfg (durOf exCfg exEvs) := by
   | some st =>
     rw [hacc] at h1
     exact run_sat exCfg (by decide) exEvs st hacc (by simpa using h1) (by decide)
-      (okCheck_spec exEvs (by decide)) (nfCheck_spec exEvs (by decide)) (zeroCheck_spec exCfg exEvs StB.init (by decide))
+      (okCheck_spec exEvs (by decide)) (nfCheck_spec exEvs (by decide)) (nfCheck_spec_ext exEvs (by decide)) (zeroCheck_spec exCfg exEvs StB.init (by decide))
 
 /-- `hzero` is needed: the same history with a shutdown handler of the nested scheduler `2` that takes one unit of
     time satisfies all the other hypotheses, and `2` ends (at 7) after the last of its jobs did (at 6) -/
